@@ -1606,6 +1606,42 @@ pub fn c03_known(dom: &[DNode]) -> Option<&'static str> {
                 k = Some("img_alt_without_src");
             }
         }
+        // the colspan defect recorded for C05 also loses text: a spanning cell over columns that
+        // get no width of their own (no single-column cell with text in them) is skipped
+        if n.is("table") && k.is_none() {
+            fn rows_of<'a>(n: &'a DNode, rows: &mut Vec<&'a DNode>) {
+                for x in n.kids() {
+                    if x.is("tr") {
+                        rows.push(x);
+                    } else if x.is("thead") || x.is("tbody") {
+                        rows_of(x, rows);
+                    }
+                }
+            }
+            let mut trs = Vec::new();
+            rows_of(n, &mut trs);
+            let mut has_span_text = false;
+            let mut single: std::collections::HashSet<usize> = std::collections::HashSet::new();
+            let mut ncols = 0usize;
+            for tr in &trs {
+                let mut c = 0usize;
+                for cell in tr.kids().iter().filter(|x| x.is("td") || x.is("th")) {
+                    let span = cell.attr("colspan").and_then(|x| x.parse::<usize>().ok()).unwrap_or(1).max(1).min(1000);
+                    let txt = vis_count(cell) > 0;
+                    if span > 1 && txt {
+                        has_span_text = true;
+                    }
+                    if span == 1 && txt {
+                        single.insert(c);
+                    }
+                    c += span;
+                }
+                ncols = ncols.max(c);
+            }
+            if has_span_text && (0..ncols).any(|c| !single.contains(&c)) {
+                k = Some("zero_width_column_under_colspan");
+            }
+        }
     });
     k
 }
